@@ -12,7 +12,7 @@ func init() { verifRegister("C13_rt", VerifHarness_C13_rt) }
 
 const (
 	c13Group, c13Delim, c13Opt, c13Nested, c13NDelim, c13NOpt, c13After = 453, 448, 447, 802, 523, 803, 452
-	c13Other, c13OtherDelim, c13Follow                                = 555, 600, 461
+	c13Other, c13OtherDelim, c13Follow                                  = 555, 600, 461
 )
 
 func c13NestedTemplate() GroupTemplate {
